@@ -281,8 +281,9 @@ def unchoke (u : Bool) : PM WRes := do
   else
     let r ← write .choke
     if r == .ok then
+      let s2 ← get
       modify (fun s => { s with amUnchoking := false, upload := [] })
-      rejectAll s.upload
+      rejectAll s2.upload
     else pure r
 
 def wantInterested (s : PeerState) : Bool :=
@@ -398,6 +399,28 @@ def extId (ms : List (Bytes × Nat)) (k : String) : Nat :=
   | some kv => kv.2 % 256
   | none => 0
 
+/-- `if peer.bitmap != nil { writeEvent(TorPeerBitmap{peer.bitmap.Copy(), false}); peer.bitmap = nil }`:
+    the remote's current bitmap is retracted (its copy travels in the event) -/
+def retractBitmap (tagOld tagNone : String) : PM Unit := do
+  let s ← get
+  match s.bitmap with
+  | some old =>
+    tagAs tagOld
+    charge old.length
+    writeEvent (.peerBitmap old false)
+    modify (fun s => { s with bitmap := none })
+  | none => tagAs tagNone
+
+/-- `q, r, _ := peer.requests.Del(c)` (or `DelRequested`): `none` of the model's `del` is the
+    Go panic "Requests is broken!" -/
+def delReq (c : Nat) (reqonly : Bool) : PM (Bool × Bool) := do
+  let s ← get
+  match del s.requests c reqonly with
+  | none => fault "Requests is broken!"
+  | some (rs, q, r) =>
+    modify (fun s => { s with requests := rs })
+    pure (q, r)
+
 /-- what the protocol reader hands to `handleMessage`: a decoded message or
     `protocol.Error{err}`; `flush` is the writer-side pseudo message and `nil` the
     `(nil, nil)` return of a broken `protocol.Read` -/
@@ -440,9 +463,8 @@ def handleWire (m : Msg) (ae : AddEnv) : PM Unit := do
     else if i ≥ maxPiecesPre then failTag "Have:range-pre" "value out of range"
     if !peerHas s i then
       tagAs (if s.info then "Have:new" else "Have:new-pre")
-      let b := s.bitmap.getD []
-      charge (bmGrow b i)
-      modify (fun s => { s with bitmap := some (bmSet b i) })
+      charge (bmGrow (s.bitmap.getD []) i)
+      modify (fun s => { s with bitmap := some (bmSet (s.bitmap.getD []) i) })
       writeEvent (.peerHave i true)
       maybeInterested
     else tagAs "Have:redundant"
@@ -451,12 +473,7 @@ def handleWire (m : Msg) (ae : AddEnv) : PM Unit := do
     if s.info then
       let n ← numPieces
       if bmLen bs > n then failTag "Bitfield:overlong" "overlong bitfield"
-    match s.bitmap with
-    | some old =>
-      tagAs "Bitfield:replace"
-      charge old.length
-      writeEvent (.peerBitmap old false)
-    | none => tagAs "Bitfield:first"
+    retractBitmap "Bitfield:replace" "Bitfield:first"
     modify (fun s => { s with bitmap := some bs })
     charge bs.length
     writeEvent (.peerBitmap bs true)
@@ -477,9 +494,9 @@ def handleWire (m : Msg) (ae : AddEnv) : PM Unit := do
         tagAs "Request:headdrop"
         match s.upload with
         | [] => fault "index:requested[0]"
-        | (hi, hb, hl) :: rest =>
+        | (hi, hb, hl) :: _ =>
           let r ← reject hi hb hl
-          if r == .ok then modify (fun s => { s with upload := rest })
+          if r == .ok then modify (fun s => { s with upload := s.upload.tail })
       else tagAs "Request:queue"
       modify (fun s => { s with upload := s.upload ++ [(i, b, l)] })
       charge 12
@@ -489,23 +506,20 @@ def handleWire (m : Msg) (ae : AddEnv) : PM Unit := do
     let n ← numPieces
     if i ≥ n % U32 then failTag "Piece:range" "value out of range"
     let c ← toChunk i b
-    match del s.requests c false with
-    | none => fault "Requests is broken!"
-    | some (rs, q, r) =>
-      modify (fun s => { s with requests := rs })
-      if r || q then
-        let cnt := if ae.skip then 0 else addCount s i b d.length
-        if !ae.skip then chargeStore (pieceLength s i)
-        let cs ← chunkSize c
-        if cnt = d.length ∧ cnt = cs then
-          tagAs (if d.length = 0 then "Piece:data-empty" else "Piece:data")
-          writeEvent (.data i b d.length (if ae.skip then false else ae.complete))
-        else
-          tagAs "Piece:drop"
-          drop c
-          active
-      else tagAs "Piece:unsolicited"
-      maybeRequest
+    let (q, r) ← delReq c false
+    if r || q then
+      let cnt := if ae.skip then 0 else addCount s i b d.length
+      if !ae.skip then chargeStore (pieceLength s i)
+      let cs ← chunkSize c
+      if cnt = d.length ∧ cnt = cs then
+        tagAs (if d.length = 0 then "Piece:data-empty" else "Piece:data")
+        writeEvent (.data i b d.length (if ae.skip then false else ae.complete))
+      else
+        tagAs "Piece:drop"
+        drop c
+        active
+    else tagAs "Piece:unsolicited"
+    maybeRequest
   | .cancel i b l =>
     if !s.info then failTag "Cancel:nometa" "metadata incomplete"
     match s.upload.findIdx? (fun r => r == (i, b, l)) with
@@ -524,15 +538,12 @@ def handleWire (m : Msg) (ae : AddEnv) : PM Unit := do
     if !s.canFast then failTag "Reject:nofast" "peer doesn't implement Fast extension"
     if !s.info then failTag "Reject:nometa" "metadata incomplete"
     let c ← toChunk i b
-    match del s.requests c true with
-    | none => fault "Requests is broken!"
-    | some (rs, _, r) =>
-      modify (fun s => { s with requests := rs })
-      if r then
-        tagAs "Reject:found"
-        drop c
-      else tagAs "Reject:notfound"
-      maybeRequest
+    let (_, r) ← delReq c true
+    if r then
+      tagAs "Reject:found"
+      drop c
+    else tagAs "Reject:notfound"
+    maybeRequest
   | .allowedFast i =>
     if !s.canFast then failTag "AllowedFast:nofast" "peer doesn't implement Fast extension"
     if s.info then
@@ -546,9 +557,7 @@ def handleWire (m : Msg) (ae : AddEnv) : PM Unit := do
     else tagAs "AllowedFast:dup"
   | .haveAll =>
     if !s.canFast then failTag "HaveAll:nofast" "peer doesn't implement Fast extension"
-    match s.bitmap with
-    | some old => charge old.length; writeEvent (.peerBitmap old false)
-    | none => pure ()
+    retractBitmap "HaveAll:retract" "HaveAll:fresh"
     modify (fun s => { s with bitmap := none, isSeed := true })
     if s.info then
       tagAs "HaveAll:meta"
@@ -561,10 +570,7 @@ def handleWire (m : Msg) (ae : AddEnv) : PM Unit := do
     maybeInterested
   | .haveNone =>
     if !s.canFast then failTag "HaveNone:nofast" "peer doesn't implement Fast extension"
-    tagAs "HaveNone"
-    match s.bitmap with
-    | some old => charge old.length; writeEvent (.peerBitmap old false)
-    | none => pure ()
+    retractBitmap "HaveNone:retract" "HaveNone"
     modify (fun s => { s with bitmap := none, isSeed := false })
   | .ext0 e =>
     if s.gotExtended then failTag "Ext0:dup" "duplicate Extended0"
